@@ -1477,8 +1477,10 @@ class Exec:
                 fo = z3.Function("py_float_of", z3.StringSort(), z3.RealSort())
                 self.maybe_raise(z3.Not(ok(v.term)), "ValueError", "float(str)")
                 return SV("real", fo(v.term))
-            if v.kind == "val" and v.tags is not None and set(v.tags) <= {"int", "bool", "real"}:
+            if v.kind == "val" and v.tags is not None and set(v.tags) <= {"none", "int", "bool", "real"}:
                 t = v.term
+                if "none" in v.tags:
+                    self.maybe_raise(Val.is_NoneV(t), "TypeError", "float(None)")
                 return SV("real", z3.If(Val.is_RealV(t), Val.rv(t), z3.ToReal(ops.as_int(v))))
             raise OutsideSubset("float() of a dynamically typed value")
         if name == "bool":
